@@ -6,6 +6,7 @@ import OV.Model.C08IntArith
 import OV.Model.C08Creation
 import OV.Model.C08Attr
 import OV.Model.C08Misc
+import OV.Model.C08Linalg
 /-! Helper lemmas for `OV.Props.C08` (core Lean only; `omega`, `simp`, case analysis). -/
 namespace OV.Lemmas.C08
 open OV.C08 OV.C08.IntArith
@@ -2231,17 +2232,17 @@ theorem mean_dim_agrees (s : Shape) (dims : List Int) (keep : Bool) (out : Shape
   · simp only [hr, if_false]
     exact reduce_agrees s dims keep out hr h
 
-theorem amax_agrees (s : Shape) (dims : Option (List Int)) (keep : Bool) (out : Shape)
-    (hr : s.length ≠ 0 ∨ dims.getD [] = [])
+theorem amax_agrees (s : Shape) (dims : List Int) (keep : Bool) (out : Shape)
+    (hr : s.length ≠ 0 ∨ dims = [])
     (h : amax.spec s dims keep = some out) : amax.model s dims keep = some out := by
   unfold amax.spec at h
   unfold amax.model
   split at h
   · by_cases h0 : s.length = 0
-    · have hd : dims.getD [] = [] := by rcases hr with hr | hr; exact absurd h0 hr; exact hr
+    · have hd : dims = [] := by rcases hr with hr | hr; exact absurd h0 hr; exact hr
       have hs : s = [] := List.length_eq_zero_iff.mp h0
       subst hs
-      rw [hd] at h ⊢
+      subst hd
       rw [torchReduce_rank0 _ keep out h]
       cases keep <;> rfl
     · exact reduce_agrees s _ keep out h0 h
@@ -3024,5 +3025,446 @@ theorem all_dims_rank0 (ds : List Int) (keep : Bool) (out : Shape) (hne : ds ≠
     | nil => exact absurd rfl hne
     | cons d ds' =>
       simp only [aux (d :: ds') ax hm, List.length_nil, or_true, if_true]
+
+/-! ## MatMul family, max.dim, logsumexp, logcumsumexp, embedding, scatter, pixel (un)shuffle -/
+
+/-! ## MatMul family -/
+
+theorem mm_core (m k n : Nat) : matmulOp [m, k] [k, n] = some [m, n] := by
+  simp [matmulOp, bcast2, bcastRev]
+theorem dot_core (k : Nat) : matmulOp [k] [k] = some [] := by
+  simp [matmulOp, bcast2, bcastRev]
+theorem vm_core (k n : Nat) : matmulOp [k] [k, n] = some [n] := by
+  simp [matmulOp, bcast2, bcastRev]
+theorem mv_core (m k : Nat) : matmulOp [m, k] [k] = some [m] := by
+  simp [matmulOp, bcast2, bcastRev]
+theorem bmm_core (p m k n : Nat) : matmulOp [p, m, k] [p, k, n] = some [p, m, n] := by
+  simp [matmulOp, bcast2, bcastRev]
+
+theorem matmul_agrees (a b out : Shape) (h : matmul.spec a b = some out) : matmul.model a b = some out := by
+  unfold matmul.spec at h
+  unfold matmul.model
+  split at h
+  · split at h
+    · next hk => injection h with h; subst h; subst hk; exact dot_core _
+    · cases h
+  · split at h
+    · next hk => injection h with h; subst h; subst hk; exact mm_core _ _ _
+    · cases h
+  · split at h
+    · next hk => injection h with h; subst h; subst hk; exact vm_core _ _
+    · cases h
+  · split at h
+    · next hk => injection h with h; subst h; subst hk; exact mv_core _ _
+    · cases h
+  · split at h
+    · cases h
+    · next hab =>
+      unfold matmul.specBatched at h
+      unfold matmulOp
+      rw [if_neg hab]
+      exact h
+
+theorem mm_agrees (a b out : Shape) (h : matmul.specMm a b = some out) : matmul.model a b = some out := by
+  unfold matmul.specMm at h
+  split at h
+  · split at h
+    · next hk => injection h with h; subst h; subst hk; exact mm_core _ _ _
+    · cases h
+  · cases h
+
+theorem bmm_agrees (a b out : Shape) (h : matmul.specBmm a b = some out) : matmul.model a b = some out := by
+  unfold matmul.specBmm at h
+  split at h
+  · next p m k p' k' n =>
+    split at h
+    · next hc => obtain ⟨h1, h2⟩ := hc; subst h1; subst h2; injection h with h; subst h; exact bmm_core _ _ _ _
+    · cases h
+  · cases h
+
+theorem mv_agrees (a b out : Shape) (h : matmul.specMv a b = some out) : matmul.model a b = some out := by
+  unfold matmul.specMv at h
+  split at h
+  · split at h
+    · next hk => injection h with h; subst h; subst hk; exact mv_core _ _
+    · cases h
+  · cases h
+
+theorem dot_agrees (a b out : Shape) (h : matmul.specDot a b = some out) : matmul.model a b = some out := by
+  unfold matmul.specDot at h
+  split at h
+  · split at h
+    · next hk => injection h with h; subst h; subst hk; exact dot_core _
+    · cases h
+  · cases h
+
+/-! ## max.dim / logsumexp / embedding -/
+
+theorem zipIdx_map_single (s : Shape) (a : Nat) :
+    s.zipIdx.map (fun p => if [a].contains p.2 then 1 else p.1) = s.set a 1 := by
+  apply List.ext_getElem
+  · simp
+  · intro i h1 h2
+    simp only [List.getElem_map, List.getElem_zipIdx, List.getElem_set, Nat.zero_add]
+    by_cases hia : a = i
+    · subst hia; simp
+    · have : ¬ i = a := fun h => hia h.symm
+      simp [hia, this]
+
+theorem max_dim_agrees (s : Shape) (dim : Int) (keep : Bool) (out : List Shape)
+    (h : max_dim.spec s dim keep = some out) : max_dim.model s dim keep = some out := by
+  unfold max_dim.spec at h
+  unfold max_dim.model
+  cases ha : torchDim s.length dim with
+  | none => rw [ha] at h; cases h
+  | some a =>
+    rw [ha] at h
+    simp only at h
+    split at h
+    · cases h
+    · next hz =>
+      cases ht : torchReduce s [dim] keep with
+      | none => rw [ht] at h; cases h
+      | some o =>
+        rw [ht] at h
+        injection h with h; subst h
+        by_cases hr : s.length = 0
+        · have hs : s = [] := List.length_eq_zero_iff.mp hr
+          subst hs
+          rw [torchReduce_rank0 _ keep o ht]
+          rfl
+        · simp only [hr, if_false]
+          rw [reduce_agrees s [dim] keep o hr ht]
+          have han : normAxis s.length dim = some a := by unfold torchDim at ha; simpa [hr] using ha
+          have hnz : s.getD a 0 ≠ 0 := by
+            intro hh; exact hz ⟨hr, hh⟩
+          have hnz' : (s.getD a 0 == 0) = false := by simpa using hnz
+          -- argOp gives the same shape as the single-axis reduction
+          have harg : argOp s dim keep = some o := by
+            unfold argOp
+            simp only [han, hnz', Bool.false_eq_true, if_false]
+            unfold torchReduce at ht
+            have e : [dim].mapM (torchDim s.length) = some [a] := by
+              simp [List.mapM_cons, ha]
+            rw [e] at ht
+            simp only [hasDup, List.contains_nil, Bool.or_self, Bool.false_eq_true, if_false, List.isEmpty_cons] at ht
+            cases keep
+            · simp only [Bool.false_eq_true, if_false] at ht ⊢; exact ht
+            · simp only [if_true] at ht ⊢
+              rw [← ht, zipIdx_map_single]; rfl
+          rw [harg]
+
+theorem logsumexp_agrees (s : Shape) (dims : List Int) (keep : Bool) (out : Shape)
+    (h : logsumexp.spec s dims keep = some out) : logsumexp.model s dims keep = some out := by
+  unfold logsumexp.spec at h
+  unfold logsumexp.model
+  by_cases hr : s.length = 0
+  · have hs : s = [] := List.length_eq_zero_iff.mp hr
+    subst hs
+    simp only [List.length_nil, if_true]
+    rw [torchReduce_rank0 _ keep out h]
+  · simp only [hr, if_false]
+    exact reduce_agrees s dims keep out hr h
+
+theorem embedding_agrees (w idx out : Shape) (h : embedding.spec w idx = some out) : embedding.model w idx = some out := by
+  unfold embedding.spec at h
+  split at h
+  · injection h with h; subst h; simp [embedding.model]
+  · cases h
+
+theorem scatter_agrees (isAdd : Bool) (s idx : Shape) (dim : Int) (out : Shape)
+    (hr : s.length ≠ 0) (hi : idx.length ≠ 0)
+    (h : scatter.spec s idx idx dim = some out) : scatter.model isAdd s idx idx dim = some out := by
+  unfold scatter.spec at h
+  unfold scatter.model scatterElements
+  simp only [hr, hi, if_false, and_false] at h ⊢
+  cases ha : torchDim s.length dim with
+  | none => rw [ha] at h; cases h
+  | some a =>
+    rw [ha] at h
+    have han : normAxis s.length dim = some a := by unfold torchDim at ha; simpa [hr] using ha
+    simp only [han]
+    simp only at h
+    by_cases hlen : idx.length = s.length
+    · simp only [hlen, ne_eq, not_true_eq_false, or_self, if_false] at h ⊢
+      by_cases hall : ((List.range s.length).all fun i => decide (idx.getD i 0 ≤ idx.getD i 0) && (i == a || decide (idx.getD i 0 ≤ s.getD i 0))) = true
+      · rw [if_pos hall] at h
+        rw [if_pos]
+        · exact h
+        · rw [List.all_eq_true] at hall ⊢
+          intro i hi'
+          have := hall i hi'
+          simp only [Bool.and_eq_true, Bool.or_eq_true, decide_eq_true_eq] at this ⊢
+          exact this.2
+      · rw [if_neg hall] at h; cases h
+    · simp only [hlen, ne_eq, not_false_eq_true, or_self, if_true] at h
+      cases h
+
+theorem resolveZeros_nozero (az : Bool) (inp : Shape) (tgt : List Int) (i : Nat) (h : ∀ t ∈ tgt, t ≠ 0) :
+    resolveZeros az inp tgt i = some tgt := by
+  induction tgt generalizing i with
+  | nil => rfl
+  | cons t ts ih =>
+    have ht : (t == 0) = false := by simpa using h t (by simp)
+    simp only [resolveZeros, ht, Bool.false_and, Bool.false_eq_true, if_false]
+    rw [ih (i + 1) (fun x hx => h x (by simp [hx]))]
+    rfl
+
+theorem numel_pos_of_nozero (t : Shape) (hpos : ∀ x ∈ t, x ≠ 0) : numel t ≠ 0 := by
+  induction t with
+  | nil => simp [numel]
+  | cons a r ih =>
+    have ha : a ≠ 0 := hpos a (by simp)
+    have hr := ih (fun x hx => hpos x (by simp [hx]))
+    simp only [numel]
+    exact Nat.mul_ne_zero ha hr
+
+/-- `Reshape([-1] ++ t)` (no zero in `t`) of a tensor with `B · numel t` elements is `[B] ++ t`. -/
+theorem reshape_neg1_head (az : Bool) (s t : Shape) (B : Nat) (hpos : ∀ x ∈ t, x ≠ 0) (hn : numel s = B * numel t) :
+    reshape az s ((-1 : Int) :: t.map (Int.ofNat ·)) = some (B :: t) := by
+  obtain ⟨f1, f2⟩ := ofNat_list_facts t
+  have hk := numel_pos_of_nozero t hpos
+  have g1 : (((-1 : Int) :: t.map (Int.ofNat ·)).any (· < -1)) = false := by
+    simp only [List.any_cons, f1, Bool.or_false]; decide
+  have g2 : countNeg1 ((-1 : Int) :: t.map (Int.ofNat ·)) = 1 := by
+    have : countNeg1 ((-1 : Int) :: t.map (Int.ofNat ·)) = 1 + countNeg1 (t.map (Int.ofNat ·)) := by
+      unfold countNeg1; simp [List.filter_cons]; omega
+    rw [this, f2]
+  have g3 : ∀ x ∈ ((-1 : Int) :: t.map (Int.ofNat ·)), x ≠ 0 := by
+    intro x hx
+    rcases List.mem_cons.mp hx with rfl | hx
+    · decide
+    · simp only [List.mem_map] at hx
+      obtain ⟨a, ha, rfl⟩ := hx
+      have := hpos a ha
+      simp; omega
+  have g4 : ((-1 : Int) :: t.map (Int.ofNat ·)).contains 0 = false := by
+    cases hc : ((-1 : Int) :: t.map (Int.ofNat ·)).contains 0 with
+    | false => rfl
+    | true => exact absurd rfl (g3 0 (List.contains_iff_mem.mp hc))
+  have g5 : knownProd ((-1 : Int) :: t.map (Int.ofNat ·)) = (numel t : Int) := by
+    simp only [knownProd, beq_self_eq_true, if_true]
+    exact knownProd_ofNat t
+  unfold reshape
+  simp only [g1, g2, resolveZeros_nozero az s _ 0 g3, g4, g5, Bool.false_eq_true, if_false, gt_iff_lt, Nat.lt_irrefl, Bool.and_false,
+    Int.toNat_natCast, if_true]
+  have hmod : numel s % numel t = 0 := by rw [hn]; exact Nat.mul_mod_left _ _
+  have hdiv : numel s / numel t = B := by rw [hn]; exact Nat.mul_div_cancel _ (Nat.pos_of_ne_zero hk)
+  simp only [hk, hmod, false_or, ne_eq, not_true_eq_false, if_false, List.map_cons, beq_self_eq_true, if_true, hdiv]
+  congr 1
+  congr 1
+  rw [List.map_map]
+  have : ∀ l : List Nat, l.map ((fun (z : Int) => if (z == -1) = true then (B : Nat) else z.toNat) ∘ fun (x : Nat) => Int.ofNat x) = l := by
+    intro l
+    induction l with
+    | nil => rfl
+    | cons a r ih =>
+      simp only [List.map_cons, Function.comp]
+      rw [show (List.map ((fun (z : Int) => if (z == -1) = true then (B : Nat) else z.toNat) ∘ fun (x : Nat) => Int.ofNat x) r) = r from ih]
+      congr 1
+  exact this t
+
+theorem sliceShape_batch (s : Shape) (h : 3 ≤ s.length) : sliceShape s 0 (-3) = s.take (s.length - 3) := by
+  unfold sliceShape sliceNorm clampI
+  simp only [show (1:Int) > 0 from by decide, if_true, show ¬ ((0:Int) < 0) from by decide, if_false,
+    show ((-3:Int) < 0) from by decide]
+  have e1 : (min (max (0:Int) 0) (s.length : Int)).toNat = 0 := by omega
+  have e2 : (min (max (-3 + (s.length : Int)) 0) (s.length : Int) - min (max (0:Int) 0) (s.length : Int)).toNat = s.length - 3 := by omega
+  rw [e1, e2]; rfl
+
+theorem sliceShape_chw (s : Shape) (h : 3 ≤ s.length) : sliceShape s (-3) (s.length : Int) = s.drop (s.length - 3) := by
+  unfold sliceShape sliceNorm clampI
+  simp only [show (1:Int) > 0 from by decide, if_true, show ((-3:Int) < 0) from by decide]
+  have hn : ¬ ((s.length : Int) < 0) := by omega
+  simp only [hn, if_false]
+  have e1 : (min (max (-3 + (s.length : Int)) 0) (s.length : Int)).toNat = s.length - 3 := by omega
+  have e2 : (min (max (s.length : Int) 0) (s.length : Int) - min (max (-3 + (s.length : Int)) 0) (s.length : Int)).toNat = 3 := by omega
+  rw [e1, e2]
+  apply List.take_of_length_le
+  simp; omega
+
+theorem getD_drop' (s : Shape) (k i : Nat) : (s.drop k).getD i 0 = s.getD (k + i) 0 := by
+  simp [List.getD_eq_getElem?_getD, List.getElem?_drop]
+
+theorem pixel_shuffle_agrees (s : Shape) (r : Int) (out : Shape)
+    (hne : s.length = 4 ∨ ∀ x ∈ s, x ≠ 0)
+    (h : pixel_shuffle.spec s r = some out) : pixel_shuffle.model s r = some out := by
+  unfold pixel_shuffle.spec at h
+  split at h
+  · cases h
+  · next hc =>
+    have h3 : 3 ≤ s.length := by omega
+    have hr : ¬ r ≤ 0 := by omega
+    unfold pixel_shuffle.model
+    by_cases h4 : s.length = 4
+    · simp only [h4, if_true]
+      match s, h4 with
+      | [n, c, hh, w], _ =>
+        simp only [List.length_cons, List.length_nil] at h
+        unfold depthToSpace
+        simp only [hr, if_false]
+        simpa using h
+    · have hnz : ∀ x ∈ s, x ≠ 0 := by rcases hne with h' | h'; exact absurd h' h4; exact h'
+      simp only [h4, if_false]
+      rw [sliceShape_batch s h3, sliceShape_chw s h3]
+      generalize hk : s.length - 3 = k at *
+      have hdl : (s.drop k).length = 3 := by simp; omega
+      have g0 := getD_drop' s k 0
+      have g1 := getD_drop' s k 1
+      have g2 := getD_drop' s k 2
+      match hd : s.drop k, hdl with
+      | [c, hh, w], _ =>
+        rw [hd] at g0 g1 g2
+        simp only [List.getD_cons_zero, List.getD_cons_succ, Nat.add_zero] at g0 g1 g2
+        simp only [← g0, ← g1, ← g2] at h
+        have hsplit : numel s = numel (s.take k) * numel [c, hh, w] := by
+          rw [← hd, ← numel_append, List.take_append_drop]
+        have hpos : ∀ x ∈ [c, hh, w], x ≠ 0 := by
+          intro x hx; rw [← hd] at hx; exact hnz x (List.mem_of_mem_drop hx)
+        rw [reshape_neg1_head false s [c, hh, w] (numel (s.take k)) hpos hsplit]
+        simp only
+        unfold depthToSpace
+        simp only [hr, if_false]
+        split at h
+        · cases h
+        · next hmod =>
+          simp only [hmod, if_false]
+          injection h with h; subst h
+          simp only [List.drop_succ_cons, List.drop_zero]
+          apply reshape_static
+          simp only [numel_append, numel, Nat.mul_one]
+
+theorem tdiv_cast (H rn : Nat) : Int.tdiv (H : Int) (rn : Int) = ((H / rn : Nat) : Int) := by
+  rw [Int.tdiv_eq_ediv_of_nonneg (by omega)]
+  exact (Int.natCast_ediv H rn).symm
+
+theorem pixel_unshuffle_agrees (s : Shape) (r : Int) (out : Shape)
+    (hnz : ∀ x ∈ s, x ≠ 0)
+    (h : pixel_unshuffle.spec s r = some out) : pixel_unshuffle.model s r = some out := by
+  unfold pixel_unshuffle.spec at h
+  split at h
+  · cases h
+  · next hc =>
+    have h3 : 3 ≤ s.length := by omega
+    have hr : 0 < r := by omega
+    obtain ⟨rn, hrn⟩ := Int.eq_ofNat_of_zero_le (Int.le_of_lt hr)
+    subst hrn
+    have hrn0 : rn ≠ 0 := by omega
+    unfold pixel_unshuffle.model
+    rw [sliceShape_batch s h3, sliceShape_chw s h3]
+    generalize hk : s.length - 3 = k at *
+    have hdl : (s.drop k).length = 3 := by simp; omega
+    have g0 := getD_drop' s k 0
+    have g1 := getD_drop' s k 1
+    have g2 := getD_drop' s k 2
+    match hd : s.drop k, hdl with
+    | [c, H, W], _ =>
+      rw [hd] at g0 g1 g2
+      simp only [List.getD_cons_zero, List.getD_cons_succ, Nat.add_zero] at g0 g1 g2
+      simp only [← g0, ← g1, ← g2, Int.toNat_natCast] at h
+      have hsplit : numel s = numel (s.take k) * numel [c, H, W] := by
+        rw [← hd, ← numel_append, List.take_append_drop]
+      have hpos : ∀ x ∈ [c, H, W], x ≠ 0 := by
+        intro x hx; rw [← hd] at hx; exact hnz x (List.mem_of_mem_drop hx)
+      have hc0 : c ≠ 0 := hpos c (by simp)
+      have hH0 : H ≠ 0 := hpos H (by simp)
+      have hW0 : W ≠ 0 := hpos W (by simp)
+      simp only [reshape_neg1_head false s [c, H, W] (numel (s.take k)) hpos hsplit]
+      split at h
+      · cases h
+      · next hmod =>
+        have hHm : H % rn = 0 := by omega
+        have hWm : W % rn = 0 := by omega
+        have hHe : H = H / rn * rn := by have := Nat.div_add_mod H rn; rw [hHm, Nat.mul_comm] at this; omega
+        have hWe : W = W / rn * rn := by have := Nat.div_add_mod W rn; rw [hWm, Nat.mul_comm] at this; omega
+        generalize hhq : H / rn = hq at *
+        generalize hwq : W / rn = wq at *
+        have hq0 : hq ≠ 0 := by intro hh; subst hh; omega
+        have wq0 : wq ≠ 0 := by intro hh; subst hh; omega
+        injection h with h; subst h
+        have hr0 : ¬ ((rn : Int) = 0) := by omega
+        simp only [hr0, if_false, List.getD_cons_zero, List.getD_cons_succ, tdiv_cast, hhq, hwq]
+        -- 6-D reshape
+        have e6 : ([-1, (c : Int), (hq : Int), (rn : Int), (wq : Int), (rn : Int)] : List Int)
+            = (-1 : Int) :: ([c, hq, rn, wq, rn] : Shape).map (Int.ofNat ·) := by simp
+        have p6 : ∀ x ∈ ([c, hq, rn, wq, rn] : Shape), x ≠ 0 := by
+          intro x hx; simp at hx; rcases hx with rfl | rfl | rfl | rfl | rfl <;> assumption
+        have n6 : numel (numel (s.take k) :: [c, H, W]) = numel (s.take k) * numel ([c, hq, rn, wq, rn] : Shape) := by
+          simp only [numel, Nat.mul_one]
+          rw [hHe, hWe]
+          simp only [Nat.mul_assoc, Nat.mul_comm, Nat.mul_left_comm]
+        rw [e6, reshape_neg1_head false _ [c, hq, rn, wq, rn] (numel (s.take k)) p6 n6]
+        simp only
+        have tp : transposeOp [numel (s.take k), c, hq, rn, wq, rn] [0, 1, 3, 5, 2, 4] = some [numel (s.take k), c, rn, rn, hq, wq] := by
+          unfold transposeOp
+          have : isPerm [numel (s.take k), c, hq, rn, wq, rn].length [0, 1, 3, 5, 2, 4] = true := by
+            show isPerm 6 [0, 1, 3, 5, 2, 4] = true
+            decide
+          simp only [this, if_true]
+          rfl
+        rw [tp]
+        simp only
+        have e4 : ([-1, (c : Int) * ((rn : Int) * (rn : Int)), (hq : Int), (wq : Int)] : List Int)
+            = (-1 : Int) :: ([c * (rn * rn), hq, wq] : Shape).map (Int.ofNat ·) := by simp
+        have p4 : ∀ x ∈ ([c * (rn * rn), hq, wq] : Shape), x ≠ 0 := by
+          intro x hx; simp at hx
+          rcases hx with rfl | rfl | rfl
+          · exact Nat.mul_ne_zero hc0 (Nat.mul_ne_zero hrn0 hrn0)
+          · assumption
+          · assumption
+        have n4 : numel [numel (s.take k), c, rn, rn, hq, wq] = numel (s.take k) * numel ([c * (rn * rn), hq, wq] : Shape) := by
+          simp only [numel, Nat.mul_one, Nat.mul_assoc]
+        rw [e4, reshape_neg1_head false _ [c * (rn * rn), hq, wq] (numel (s.take k)) p4 n4]
+        simp only [List.drop_succ_cons, List.drop_zero]
+        apply reshape_static
+        simp only [numel_append, numel, Nat.mul_one]
+
+theorem bcastRev_self_or_one : ∀ (x y : List Nat), x.length = y.length →
+    (∀ p ∈ x.zip y, p.2 = p.1 ∨ p.2 = 1) → bcastRev x y = some x
+  | [], [], _, _ => rfl
+  | [], _ :: _, h, _ => by simp at h
+  | _ :: _, [], h, _ => by simp at h
+  | a :: xs, b :: ys, hl, hp => by
+    have ih := bcastRev_self_or_one xs ys (by simpa using hl) (fun p hp' => hp p (by simp [hp']))
+    have hab := hp (a, b) (by simp)
+    simp only at hab
+    unfold bcastRev
+    rcases hab with rfl | rfl
+    · simp [ih]
+    · by_cases ha : a = 1
+      · subst ha; simp [ih]
+      · have : (a == 1) = false := by simpa using ha
+        simp [this, ih]
+
+theorem bcast2_keepdims (s : Shape) (ax : List Nat) :
+    bcast2 s (s.zipIdx.map (fun p => if ax.contains p.2 then 1 else p.1)) = some s := by
+  unfold bcast2
+  rw [bcastRev_self_or_one]
+  · simp
+  · simp
+  · intro p hp
+    obtain ⟨i, hi, rfl⟩ := List.mem_iff_getElem.mp hp
+    simp only [List.getElem_zip, List.getElem_reverse, List.getElem_map, List.getElem_zipIdx]
+    split
+    · right; rfl
+    · left; simp
+
+theorem logcumsumexp_agrees (s : Shape) (dim : Int) (out : Shape)
+    (h : logcumsumexp.spec s dim = some out) : logcumsumexp.model s dim = some out := by
+  unfold logcumsumexp.spec at h
+  unfold logcumsumexp.model
+  cases ha : torchDim s.length dim with
+  | none => rw [ha] at h; cases h
+  | some a =>
+    rw [ha] at h
+    simp only [Option.map_some] at h
+    by_cases hr : s.length = 0
+    · simp only [hr, if_true]; exact h
+    · have han : normAxis s.length dim = some a := by unfold torchDim at ha; simpa [hr] using ha
+      simp only [hr, if_false]
+      unfold reduceOp normAxes
+      simp only [List.mapM_cons, List.mapM_nil, han, bind, Option.bind, pure, List.isEmpty_cons, Bool.false_eq_true, if_false, if_true,
+        bcast2_keepdims]
+      exact h
 
 end OV.Lemmas.C08
